@@ -391,7 +391,8 @@ fn main() {
             let _ = o.flush();
         }
         let budget = req["budget"].as_u64().unwrap_or(0);
-        let stack = req["stack"].as_u64().unwrap_or(8 << 20) as usize;
+        // the stack the work gets in ironplcc (plc2x/bin/main.rs, STACK_SIZE since 88d4208; 8 MiB, the main thread's, before)
+        let stack = req["stack"].as_u64().unwrap_or(1 << 30) as usize;
         *LAST_PANIC.lock().unwrap() = None;
         let req2 = req.clone();
         let handle = std::thread::Builder::new()
